@@ -120,11 +120,16 @@ let parse_op (toks : string list) : (string * op option * string) =
   | ["v2sc"; app; asset; lot] -> "v2-surplus-close", Some (V2SurplusClose (zo app, zo asset, zo lot)), res
   | ["v2dc"; app; asset; ca; dd; da] -> "v2-debt-close", Some (V2DebtClose (zo app, zo asset, zo ca, zo dd, zo da)), res
   | ["v2pen"; app; ca; da; amt] -> "v2-penalty", Some (V2Penalty (zo app, zo ca, zo da, zo amt)), res
+  | ["v2esm"; app; da; collected; fee] -> "v2-trigger-esm", Some (V2TriggerEsm (zo app, zo da, zo collected, zo fee)), res
+  | "esmredeem" :: app :: st :: _n :: rest ->
+    let rec pairs = function a :: c :: tl -> (zo a, zo c) :: pairs tl | [] -> [] | _ -> failwith "esmredeem line" in
+    "esm-redeem", Some (EsmRedeem (zo app, b st, pairs rest)), res
+  | ["cdep"; u; app; d; amt; done_] -> "collector-deposit", Some (CDeposit (zo u, zo app, zo d, zo amt, b done_)), res
   | ["noop"] -> "noop", None, res
   | _ -> failwith ("bad op: " ^ S.concat " " toks)
 
 let kf_of (o : op) : string =
-  if kf_C13_2 o then "kf_C13_2" else if kf_C13_3 o then "kf_C13_3" else "none"
+  if kf_C13_2 o then "kf_C13_2" else "none"
 
 let run (path : string) =
   let lines = read_lines path in
@@ -138,6 +143,9 @@ let run (path : string) =
   let pre_ops : (string * op) list ref = ref [] in   (* further auctions closed by the same real unit *)
   let o = ref (new_obs ()) in
   let taint = ref "none" in
+  let ext_ok = ref true in         (* the harness's prediction for the part of the unit inside the auction module *)
+  let outside = ref false in       (* an op outside valid_op succeeded (WasmMsgGetSurplusFund with the coin of another
+                                      asset): the backing / flow theorems say nothing about the rest of this history *)
   let dead = ref false in
   let sig_ = Buffer.create 1024 in
   let ok_locker = ref 0 and ok_coll = ref 0 and paid = ref 0 in
@@ -153,26 +161,42 @@ let run (path : string) =
     if not !dead then begin
       let (kind, mop, res) = !cur_op in
       let impl = state_of_obs !in_assets !in_apps !o in
-      (* 1. model step *)
+      (* 1. model step: the unit = the "pre" ops and the op, all or nothing; expected class = err when the
+         harness predicts a failure inside the auction module, the model's own class otherwise *)
       let had_pre = !pre_ops <> [] in
-      L.iter (fun (k, op) ->
-          (match Locker.step !model op with
-           | Base.Ok s' -> model := s'; (let kf = kf_of op in if kf <> "none" then taint := kf); bump ("op:" ^ k ^ ":ok(pre)")
-           | Base.Err c -> mismatch ~case:!case ~step:!step ~field:("result:" ^ k) ~model:("err" ^ zs c) ~impl:"ok"
-           | Base.Panic -> mismatch ~case:!case ~step:!step ~field:("result:" ^ k) ~model:"panic" ~impl:"ok")) (L.rev !pre_ops);
+      let unit_ops = (L.rev !pre_ops) @ (match mop with Some op -> [(kind, op)] | None -> []) in
       pre_ops := [];
+      if unit_ops <> [] then begin
+        let rec go s = function
+          | [] -> ("ok", Some s)
+          | (k, op) :: tl ->
+            (match Locker.step s op with
+             | Base.Ok s' -> go s' tl
+             | Base.Err c -> bump ("err:" ^ k ^ ":" ^ zs c); ("err", None)
+             | Base.Panic -> ("panic", None)) in
+        let (expected, s_final) = if not !ext_ok then (bump ("ext-fail:" ^ kind); ("err", None)) else go !model unit_ops in
+        if expected <> res then mismatch ~case:!case ~step:!step ~field:("result:" ^ kind) ~model:expected ~impl:res;
+        (match s_final with Some s' -> model := s' | None -> ());
+        if res = "ok" then
+          L.iter (fun (k, op) ->
+              (let kf = kf_of op in if kf <> "none" then taint := kf);
+              if not (valid_op op) then begin
+                match op with
+                | SurplusFund _ -> outside := true; bump "outside:sfund-coin-of-another-asset"
+                | _ -> mismatch ~case:!case ~step:!step ~field:("valid_op:" ^ k) ~model:"true" ~impl:"false"
+              end;
+              if had_pre && k <> kind then bump ("op:" ^ k ^ ":ok(pre)")) unit_ops
+      end;
+      ext_ok := true;
+      (* the emergency redemption lists every net-fee record of the app: the list must be the book *)
       (match mop with
-       | None -> ()
-       | Some op ->
-         (match Locker.step !model op with
-          | Base.Ok s' ->
-            if res <> "ok" then mismatch ~case:!case ~step:!step ~field:("result:" ^ kind) ~model:"ok" ~impl:res;
-            model := s'
-          | Base.Err c ->
-            if res <> "err" then mismatch ~case:!case ~step:!step ~field:("result:" ^ kind) ~model:("err" ^ zs c) ~impl:res
-            else bump ("err:" ^ kind ^ ":" ^ zs c)
-          | Base.Panic ->
-            if res <> "panic" then mismatch ~case:!case ~step:!step ~field:("result:" ^ kind) ~model:"panic" ~impl:res));
+       | Some (EsmRedeem (app, _, l)) ->
+         L.iter (fun d ->
+             let listed = L.exists (fun (x, _) -> zs x = zs d) l in
+             let have = (match (!model).cs.nf (app, d) with Some _ -> true | None -> false) in
+             if listed <> have then
+               mismatch ~case:!case ~step:!step ~field:("esm-redeem:records[" ^ zs d ^ "]") ~model:(tok_of_bool have) ~impl:(tok_of_bool listed)) !assets
+       | _ -> ());
       (* 2. diff the whole projection *)
       let rm = render !apps !assets !nusers !model and ri = render !apps !assets !nusers impl in
       (try
@@ -188,24 +212,28 @@ let run (path : string) =
       (match mop with Some op when res = "ok" -> (let kf = kf_of op in if kf <> "none" then taint := kf) | _ -> ());
       if not (holds_C13_locker !apps !assets impl) then pf "holds_C13_locker" "none" kind;
       if not (holds_C13_nonneg !apps !assets impl) then pf "holds_C13_nonneg" "none" kind;
-      if not (holds_C13_backed !apps !assets impl) then pf "holds_C13_backed" !taint kind;
+      if not !outside && not (holds_C13_backed !apps !assets impl) then pf "holds_C13_backed" !taint kind;
       (match mop, !prev_impl with
        | Some op, Some p when res = "ok" ->
          let kf = kf_of op in
          if kf <> "none" then taint := kf;
          let keys = L.concat (L.map (fun a -> L.map (fun d -> (a, d)) !assets) !apps) in
          if not (holds_C13_pay p op impl) then pf "holds_C13_pay" "none" kind;
-         let rate_kf = (match op with UpdLookup _ -> !taint | _ -> kf) in
-         if not had_pre then begin
+         (* the savings-rate change and the emergency redemption are exact only in a backed state *)
+         let rate_kf = (match op with UpdLookup _ | EsmRedeem _ -> !taint | _ -> kf) in
+         let multi_outside = !outside && (match op with UpdLookup _ | EsmRedeem _ -> true | _ -> false) in
+         if not had_pre && not multi_outside then begin
            if not (holds_C13_delta keys p op impl) then pf "holds_C13_delta" rate_kf kind;
-           if not (holds_C13_flow !apps !assets p op impl) then pf "holds_C13_flow" rate_kf kind
+           if valid_op op && not (holds_C13_flow !apps !assets p op impl) then pf "holds_C13_flow" rate_kf kind
          end;
          (* histograms *)
          (match op with
           | LCreate _ | LDeposit _ | LWithdraw _ | LClose _ -> incr ok_locker
           | FeeIn (_, _, amt, _) -> if zs amt <> "0" then (incr ok_coll; bump "fee-in:positive")
           | GetAmount _ | DecNetFee _ | SurplusFund _ | V1Penalty _ | V2Penalty _ | V1SurplusClose _ | V1DebtClose _
-          | V2SurplusClose _ | V2DebtClose _ -> incr ok_coll
+          | V2SurplusClose _ | V2DebtClose _ | V2TriggerEsm _ | CDeposit _ -> incr ok_coll
+          | EsmRedeem (a, _, l) ->
+            if L.exists (fun (d, c) -> zs c = "1" && zs (nf_val p.cs a d) <> "0") l then (incr ok_coll; bump "esm-redeem:burnt")
           | _ -> ());
          (match op with
           | LDeposit (_, a, d, l, _, rw) | LWithdraw (_, a, d, l, _, rw) | LClose (_, a, d, l, rw) ->
@@ -226,7 +254,7 @@ let run (path : string) =
       match tokens line with
       | "case" :: id :: na :: rest ->
         end_case ();
-        case := id; step := 0; dead := false; taint := "none"; Buffer.clear sig_;
+        case := id; step := 0; dead := false; taint := "none"; outside := false; ext_ok := true; Buffer.clear sig_;
         ok_locker := 0; ok_coll := 0; paid := 0;
         let na = int_of_string na in
         let (a, rest) = take na rest in
@@ -268,6 +296,7 @@ let run (path : string) =
       | ["U"; u; app; asset; lid] -> Hashtbl.replace !o.o_umap (u ^ "," ^ app ^ "," ^ asset) (zo lid)
       | ["T"; lid; app; v] -> Hashtbl.replace !o.o_trk (lid ^ "," ^ app) (zo v)
       | ["B"; acct; d; v] -> Hashtbl.replace !o.o_bank (acct ^ "," ^ d) (zo v)
+      | ["ext"; v] -> ext_ok := b v
       | ["note"; "v2pen:split_mismatch"] ->
         (* generation-2 penalty: collector share + keeper share <> LockedVault.FeeToBeCollected *)
         mismatch ~case:!case ~step:!step ~field:"v2pen.split" ~model:"penalty=collector+keeper" ~impl:"differs"
